@@ -16,7 +16,8 @@ from ..core import cz
 
 ID = "C02"
 THEOREMS = ["C02_walk_is_path", "C02_color_road", "C02_has_road", "C02_winner", "C02_flat_count",
-            "C02_has_road_agrees_winner", "C02_no_road_agrees_winner", "C02_tie_kind_is_road"]
+            "C02_has_road_agrees_winner", "C02_no_road_agrees_winner", "C02_tie_kind_is_road",
+            "C02_source_winner_outcome"]
 MODEL_TARGETS = ["model/Tak.vo", "model/Road.vo", "model/Harness.vo", "model/Lit.vo"]
 TRUSTED_BASE = [
     "CPython list indexing board[y*size+x] and stack[0] = top (validated by the correspondence)",
@@ -573,3 +574,9 @@ def replay(run, rp):
     if out["violates"]:
         out["clause"] = clause_of(pos, w, h, ow, oh)
     return out
+
+
+def pregen(run):
+    """regenerate gen/GameGen.v (the shallow embedding of game.py/moves.py/pieces.py) from the tree under test"""
+    from . import c01gen
+    return c01gen.pregen(run)
